@@ -399,6 +399,15 @@ func (s *Sim) restartShard(h *Host) {
 	// the previous incarnation of the node must be fully unloaded first
 	s.ctx.Ev("restartshard", uint64(h.id))
 	s.ctx.Count("fault.restart_shard", 1)
+	for _, t := range s.ex.Live() {
+		if t.Host == h.id && t.Name == "chunk" {
+			// StartReplica (which cleans up "orphaned" snapshot directories) while
+			// the transport is in the middle of receiving / finalizing a snapshot
+			// for this replica: the history of the recorded finding
+			h.restartedWhileReceiving = true
+			s.ctx.Count("probe.shard_restarted_while_receiving_snapshot", 1)
+		}
+	}
 	s.runTask("boot", h, "boot", func() {
 		if s.tryStartReplica(h) {
 			h.stopped = false
